@@ -19,6 +19,10 @@ Definition case_t : Type := (list Z * Z * wcase * option (list Z) * list (list Z
 Definition labels_ok (classes : list Z) (C : Z) : bool :=
   forallb (fun c => (0 <=? c) && (c <? C)) classes.
 
+(* unlabeled samples (-1) allowed *)
+Definition labels_ok_u (classes : list Z) (C : Z) : bool :=
+  forallb (fun c => (-1 <=? c) && (c <? C)) classes.
+
 Definition contiguous (out : list Z) : bool :=
   match out with [] => true | a :: _ => list_eqb out (zrange a (a + zlen out)) end.
 
@@ -49,32 +53,33 @@ Definition spec_holds (classes : list Z) (C : Z) (w : wcase) (o : list Z) (compl
       | None => list_eqb o (copies classes (odflt r 0))
       end
   | WOversample ex =>
-      if labels_ok classes (n_classes_eff C) then
-        in_range classes o && keeps_all classes o
+      if labels_ok_u classes (n_classes_eff C) then
+        in_range classes o && keeps_all classes o && unlabeled_once classes o
         && (if ex then balanced_exact classes (n_classes_eff C) o else balanced_multiply classes (n_classes_eff C) o)
       else true
   | WSortByClass =>
-      if labels_ok classes C then is_permutation classes o && sorted_stable classes o else true
+      if labels_ok_u classes C then is_permutation classes o && sorted_stable classes o else true
   | WIntraClass _ =>
-      if labels_ok classes C then is_permutation classes o && list_eqb (map (cls classes) o) classes else true
+      if labels_ok_u classes C then is_permutation classes o && list_eqb (map (cls classes) o) classes else true
   | WFewshot k _ =>
-      if labels_ok classes C && (0 <=? k) then fewshot_ok classes k o else true
+      (* FewshotWrapper never reads getdim_class: no condition on the labels (fewshot_counts has none) *)
+      if 0 <=? k then fewshot_ok classes k o else true
   | WClasswiseRange s e chk =>
-      if labels_ok classes (n_classes_eff C) && (0 <=? odflt s 0) then
+      if labels_ok_u classes (n_classes_eff C) && (0 <=? odflt s 0) then
         let e' := Z.min (odflt e n) n in
         list_eqb o (spec_classwise classes (fun _ => odflt s 0) (fun cnt => Z.min e' cnt) C)
         && (if chk then forallb (fun c => e' <=? count_of c classes) (class_ids C) else true)
       else true
   | WClasswisePercent s e =>
-      if labels_ok classes (n_classes_eff C) then
-        list_eqb o (spec_classwise classes (fcut false (odflt s 0%float)) (fcut false (odflt e 1%float)) C)
+      if labels_ok_u classes (n_classes_eff C) then
+        list_eqb o (spec_classwise classes (fcut32 false (odflt s 0%float)) (fcut32 false (odflt e 1%float)) C)
       else true
   end.
 
 (* the clauses of Proofs.pct_contract (and monotonicity where the wrapper asserts p <= q) for the
    binary64 instance, at the sizes this case uses *)
-Definition float_cut_ok (m : Z) (ps : list (option float)) : bool :=
-  (fcut false 0 m =? 0) && (fcut true 0 m =? 0) && (fcut false 1 m =? m) && (fcut true 1 m =? m)
+Definition float_cut_ok_g (fcut : bool -> float -> Z -> Z) (m : Z) (ps : list (option float)) : bool :=
+  (fcut false 0%float m =? 0) && (fcut true 0%float m =? 0) && (fcut false 1%float m =? m) && (fcut true 1%float m =? m)
   && forallb (fun op => match op with
                         | Some p => if pct_ok p
                                     then (0 <=? fcut false p m) && (fcut false p m <=? m)
@@ -84,9 +89,13 @@ Definition float_cut_ok (m : Z) (ps : list (option float)) : bool :=
                         | None => true
                         end) ps.
 
-Definition float_mono_ok (m : Z) (s e : option float) : bool :=
+Definition float_cut_ok := float_cut_ok_g fcut.
+
+Definition float_mono_ok_g (fcut : bool -> float -> Z -> Z) (m : Z) (s e : option float) : bool :=
   let sp := odflt s 0%float in let ep := odflt e 1%float in
   if pct_ok sp && pct_ok ep && PrimFloat.leb sp ep then fcut false sp m <=? fcut false ep m else true.
+
+Definition float_mono_ok := float_mono_ok_g fcut.
 
 Definition float_contract_ok (classes : list Z) (C : Z) (w : wcase) : bool :=
   let n := zlen classes in
@@ -94,7 +103,8 @@ Definition float_contract_ok (classes : list Z) (C : Z) (w : wcase) : bool :=
   | WPercent f t _ _ => float_cut_ok n [f; t]
   | WSubsetPercent s e => float_cut_ok n [s; e] && float_mono_ok n s e
   | WClasswisePercent s e =>
-      forallb (fun c => let m := count_of c classes in float_cut_ok m [s; e] && float_mono_ok m s e) (class_ids C)
+      (* binary32 here; the clause cut 1. = m needs m < 2**24 *)
+      forallb (fun c => let m := count_of c classes in float_cut_ok_g fcut32 m [s; e] && float_mono_ok_g fcut32 m s e) (class_ids C)
   | _ => true
   end.
 
@@ -105,21 +115,21 @@ Definition must_succeed (classes : list Z) (C : Z) (w : wcase) : bool :=
   let n := zlen classes in
   match w with
   | WClassFilter _ _ | WShuffle _ | WSortByClass => true
-  | WOversample _ => labels_ok classes (n_classes_eff C) && negb (Nat.eqb (length classes) 0) && (0 <? C)
+  | WOversample _ => labels_ok_u classes (n_classes_eff C) && negb (Nat.eqb (length classes) 0) && (0 <? C)
   | WPercent f t _ _ => pct_ok (odflt f 0%float) && pct_ok (odflt t 1%float)
   | WSubsetRange s e => given s e && (0 <=? odflt s 0) && (odflt s 0 <=? Z.min (odflt e n) n)
   | WSubsetPercent s e =>
       given s e && pct_ok (odflt s 0%float) && pct_ok (odflt e 1%float) && PrimFloat.leb (odflt s 0%float) (odflt e 1%float)
   | WRepeat r m =>
       (0 <? n) && match r, m with Some r', None => 0 <? r' | None, Some m' => 0 <? m' | _, _ => false end
-  | WIntraClass _ => labels_ok classes C
-  | WFewshot k _ => labels_ok classes C && (0 <=? k) && (0 <? n)
+  | WIntraClass _ => labels_ok_u classes C
+  | WFewshot k _ => (0 <=? k) && (0 <? n)
   | WClasswiseRange s e chk =>
       let e' := Z.min (odflt e n) n in
-      labels_ok classes (n_classes_eff C) && given s e && (0 <=? odflt s 0) && (odflt s 0 <=? e')
+      labels_ok_u classes (n_classes_eff C) && given s e && (0 <=? odflt s 0) && (odflt s 0 <=? e')
       && (if chk then forallb (fun c => e' <=? count_of c classes) (class_ids C) else true)
   | WClasswisePercent s e =>
-      labels_ok classes (n_classes_eff C) && given s e && pct_ok (odflt s 0%float) && pct_ok (odflt e 1%float)
+      labels_ok_u classes (n_classes_eff C) && given s e && pct_ok (odflt s 0%float) && pct_ok (odflt e 1%float)
       && PrimFloat.leb (odflt s 0%float) (odflt e 1%float)
   | WSubsetIdx _ => false
   end.
